@@ -7,7 +7,7 @@ CONSTANTS Comp = "hub_re"
   Hosts <- H3
   InitAt <- At2_3
   MovePorts <- Mv2s
-  Dsts <- D_H3UB
+  Dsts <- D_1UB
   Shapes <- Sh_al
   NBuf = 0
   Gaps <- G_none
